@@ -37,12 +37,11 @@ class NodeVisitor(visitor.PartialVisitor[ast.AST]):
     def generic_visit(self, node: ast.AST) -> None:
         """
         Helper method to visit a node by calling C{visit()} on each child of the node. 
-        This is useful because this vistitor only visits statements inside C{.body} attribute. 
-        
-        So if one wants to visit L{ast.Expr} children with their visitor, they should include::
+        This is useful because this vistitor only visits statements inside C{.body} attribute
+        and the value of expression statements (L{ast.Expr}), see L{get_children}.
 
-            def visit_Expr(self, node:ast.Expr):
-                self.generic_visit(node)
+        The children visited that way are entered by the extensions as well, but never departed:
+        do not use it for nodes the walk reaches anyway.
         """
         for v in iter_values(node):
             self.visit(v)
@@ -50,10 +49,17 @@ class NodeVisitor(visitor.PartialVisitor[ast.AST]):
     @classmethod
     def get_children(cls, node: ast.AST) -> Iterable[ast.AST]:
         """
-        Returns the nested nodes in the body of a node.
+        Returns the nested nodes in the body of a node,
+        and the value of an expression statement (L{ast.Expr}).
         """
+        if isinstance(node, ast.Expr):
+            # The expression is entered and left like any other child,
+            # after all extensions have entered the statement.
+            yield node.value
+            return
         body: Optional[Sequence[ast.AST]] = getattr(node, 'body', None)
-        if body is not None:
+        if isinstance(body, list):
+            # The body of an expression (ast.Lambda, ast.IfExp) is not a list of statements.
             for child in body:
                 yield child
         if isinstance(node, (ast.Try, getattr(ast, 'TryStar', ast.Try), ast.For, ast.AsyncFor, ast.While)):
